@@ -224,8 +224,9 @@ def api_rules(ctx, crate):
     g = crate.fn("shell::Shell::get_env")
     if g is not None:
         ctx.analysed(g)
-        both = any(last_seg(c) == "get" and "HashMap" in c for bb, t, c in g.calls()) and \
-            any(mir.short(c) == "std::env::var" for bb, t, c in g.calls())
+        gcalls = [c for fb in [g] + crate.closures_of(g.path) for bb, t, c in fb.calls()]
+        both = any(last_seg(c) == "get" and "HashMap" in c for c in gcalls) and \
+            any(mir.short(c) in ("std::env::var", "std::env::var_os") for c in gcalls)
         ctx.ob("R09-5", g.path, "get_env consults the shell map and the process environment", both,
                key="R09-5|%s|both" % g.path, crate=crate.kind)
     e = crate.fn("builtins::export::run")
